@@ -78,7 +78,9 @@ pub struct RunResult {
 struct HaltObs {
     /// top-level instructions started after the flag was raised (counted even when events are not recorded)
     after: std::rc::Rc<std::cell::Cell<u64>>,
-    flag: Arc<AtomicBool>,
+    /// the embedder's own handle of the flag; None = the embedder kept none (it handed its only handle to the run, as
+    /// `Env::new(_, _, None)` or a watchdog that exits after storing does) and the flag is raised through the run's `Env`
+    flag: Option<Arc<AtomicBool>>,
     at: Option<(u64, Pos)>,
     current_d0: Option<u64>,
     snapshots: std::rc::Rc<std::cell::RefCell<Vec<Vars>>>,
@@ -86,13 +88,16 @@ struct HaltObs {
 }
 
 impl HaltObs {
-    fn raise(&mut self, core: &mut Core, how: &str) {
+    fn raise(&mut self, core: &mut Core, how: &str, env: &Env) {
         if !self.done {
             self.done = true;
             let seq = core.next_seq();
             core.log.push(Event::Halt { seq, by: how.to_string() });
             *core.fired.entry("F6".to_string()).or_insert(0) += 1;
-            self.flag.store(true, Ordering::SeqCst);
+            match &self.flag {
+                Some(f) => f.store(true, Ordering::SeqCst),
+                None => env.halt.store(true, Ordering::SeqCst),
+            }
         }
     }
 }
@@ -108,9 +113,9 @@ impl Observer for HaltObs {
         if let Some((k, pos)) = self.at.clone() {
             if self.current_d0 == Some(k) {
                 match pos {
-                    Pos::Before if info.d0_index.is_some() => self.raise(core, "command:before"),
-                    Pos::Handler if info.handler => self.raise(core, "command:handler"),
-                    Pos::Nested if info.depth >= 1 => self.raise(core, "command:nested"),
+                    Pos::Before if info.d0_index.is_some() => self.raise(core, "command:before", _e),
+                    Pos::Handler if info.handler => self.raise(core, "command:handler", _e),
+                    Pos::Nested if info.depth >= 1 => self.raise(core, "command:nested", _e),
                     _ => {}
                 }
             }
@@ -149,7 +154,7 @@ impl Observer for HaltObs {
         }
         if let Some((k, Pos::After)) = self.at.clone() {
             if info.d0_index == Some(k) {
-                self.raise(core, "command:after");
+                self.raise(core, "command:after", _e);
             }
         }
     }
@@ -185,7 +190,11 @@ fn run_program(program: &Program, env: &WorkerEnv, flag: Arc<AtomicBool>) -> Res
 fn run_once(program: &Program, env: &WorkerEnv, at: Option<(u64, Pos)>, budget: u64) -> Result<RunResult, String> {
     let flag = Arc::new(AtomicBool::new(false));
     let snaps = std::rc::Rc::new(std::cell::RefCell::new(Vec::new()));
-    sim::reset(Some(Box::new(HaltObs { after: Default::default(), flag: flag.clone(), at, current_d0: None, snapshots: snaps.clone(), done: false })));
+    // at odd boundaries the embedder keeps no handle of its own: the run's `Env` then holds the only one, and the flag is
+    // raised through it (what a command does, or a watchdog thread that stores and exits)
+    let sole = matches!(&at, Some((k, _)) if k % 2 == 1);
+    let kept = if sole { None } else { Some(flag.clone()) };
+    sim::reset(Some(Box::new(HaltObs { after: Default::default(), flag: kept, at, current_d0: None, snapshots: snaps.clone(), done: false })));
     sim::with_core(|c| {
         c.budget = budget;
         let k = ENV_KIND.with(|k| k.get());
@@ -465,6 +474,9 @@ fn mode_a(program: &Program, env: &WorkerEnv, only: &Option<(u64, Pos)>) -> (Ver
         }
         *fired.entry("F6".to_string()).or_insert(0) += 1;
         *probes.entry(format!("halt-{:?}", pos).to_lowercase()).or_insert(0) += 1;
+        if k % 2 == 1 {
+            *probes.entry("halt-raised-through-the-only-handle".to_string()).or_insert(0) += 1;
+        }
         let mut pv = vec![];
         probes_for(&dry.log, k, &mut pv);
         for p in pv {
@@ -509,7 +521,7 @@ fn mode_long(k: u64, env: &WorkerEnv) -> (Verdict, Vec<Event>, BTreeMap<String, 
     let flag = Arc::new(AtomicBool::new(false));
     let after = std::rc::Rc::new(std::cell::Cell::new(0u64));
     let snaps = std::rc::Rc::new(std::cell::RefCell::new(Vec::new()));
-    sim::reset(Some(Box::new(HaltObs { after: after.clone(), flag: flag.clone(), at: Some((k, Pos::Before)), current_d0: None, snapshots: snaps, done: false })));
+    sim::reset(Some(Box::new(HaltObs { after: after.clone(), flag: if k % 2 == 1 { None } else { Some(flag.clone()) }, at: Some((k, Pos::Before)), current_d0: None, snapshots: snaps, done: false })));
     sim::with_core(|c| {
         c.budget = k + 2_000;
         c.quiet = true;
@@ -660,18 +672,18 @@ fn mode_b(program: &Program, env: &WorkerEnv, sched: &str, sched_seed: u64, yiel
             c.budget = budget;
             c.yield_hook = Some(yield_hook);
         });
-        let flag = Arc::new(AtomicBool::new(false));
         let result: Arc<std::sync::Mutex<Option<Result<Vars, String>>>> = Arc::new(std::sync::Mutex::new(None));
         let mut config = shuttle::Config::new();
         config.stack_size = 2 << 20;
         config.failure_persistence = shuttle::FailurePersistence::None;
         config.max_steps = shuttle::MaxSteps::FailAfter(2_000_000);
         config.silence_warnings = true;
-        let flag2 = flag.clone();
         let result2 = result.clone();
         let body = move || {
-            let flag_r = flag2.clone();
-            let flag_h = flag2.clone();
+            // the flag lives in the run's `Env` and in the halter only: once the halter has stored and exited, the `Env`
+            // holds the only handle (a watchdog that sets the flag and goes away)
+            let flag_r = Arc::new(AtomicBool::new(false));
+            let flag_h = flag_r.clone();
             let program3 = program2.clone();
             let result3 = result2.clone();
             let jail = jail_root.clone();
@@ -830,13 +842,13 @@ impl Prop for C13 {
     fn info(&self) -> PropInfo {
         PropInfo {
             level: "fault_enumeration",
-            rule: "one evaluation = one program. Mode A (3 of 4 runs): the program is first run unhalted (cut at 300 steps), then re-run once for EVERY depth-0 instruction boundary k and each applicable position (before the command body / after it / during its on_error handler / from a nested invocation), the halt flag being raised at exactly that point; each halted run must be the exact prefix of the unhalted one (events, Ok result, variables as after instruction k). Mode B (1 of 4): a halter thread raises the flag under shuttle's seeded random or PCT scheduler. Long haul (1 of 250): a non-terminating 4-line loop runs 10^3 to 5*10^5 instructions without event recording before the flag is raised from inside; no further top-level instruction may start (faults_fired.F6 counts halted executions of all modes). Programs: scripted goto/error programs without SDK (incl. output-only lines, handler registered while running) and while/for-in/function programs over the real SDK, some non-terminating. Non-trivial = at least 3 steps and the flag was actually raised; distinct = distinct abstract traces of the combined log",
+            rule: "one evaluation = one program. Mode A (3 of 4 runs): the program is first run unhalted (cut at 300 steps), then re-run once for EVERY depth-0 instruction boundary k and each applicable position (before the command body / after it / during its on_error handler / from a nested invocation), the halt flag being raised at exactly that point; each halted run must be the exact prefix of the unhalted one (events, Ok result, variables as after instruction k); at odd k the embedder keeps no handle of the flag and it is raised through the run's Env, which then holds the only one. Mode B (1 of 4): a halter thread raises the flag under shuttle's seeded random or PCT scheduler and exits, leaving the run's Env as the only holder. Long haul (1 of 250): a non-terminating 4-line loop runs 10^3 to 5*10^5 instructions without event recording before the flag is raised from inside; no further top-level instruction may start (faults_fired.F6 counts halted executions of all modes). Programs: scripted goto/error programs without SDK (incl. output-only lines, handler registered while running) and while/for-in/function programs over the real SDK, some non-terminating. Non-trivial = at least 3 steps and the flag was actually raised; distinct = distinct abstract traces of the combined log",
             real: &["duckscript::runner (poll site, result handling)", "duckscript::parser", "Env.halt: the std Arc<AtomicBool>", "SDK flow control (while/for/if/function/goto) in Sdk programs"],
             stub: &["harness commands (scripted answers, emit, cnd)", "OS scheduler (replaced by shuttle in mode B)", "out/err streams"],
             assumptions: &["a store that lands between a poll and the next command start is observationally the same as one landing inside that command (both are covered)", "mode B: the runner thread yields only inside decorated invocations and stream writes"],
             needs_jail: false,
             needs_duck: false,
-            expected_probes: &["halt-before", "halt-after", "halt-handler", "halt-nested", "halt-on-back-edge", "halt-on-forward-jump", "halt-on-last-instruction", "halt-from-thread", "halt-on-loop-end-command"],
+            expected_probes: &["halt-before", "halt-after", "halt-handler", "halt-nested", "halt-on-back-edge", "halt-on-forward-jump", "halt-on-last-instruction", "halt-from-thread", "halt-on-loop-end-command", "halt-raised-through-the-only-handle"],
         }
     }
     fn runs(&self, tier: &str) -> u64 {
